@@ -406,14 +406,20 @@ class NewStepSize(_Base):
 
 
 class AdaptivityRestart(_Base):
-    """plain adaptivity: a restart is requested iff e_est >= e_tol once iter >= maxiter; an existing request is kept"""
+    """plain adaptivity: once iter >= maxiter a step whose estimate is above the tolerance is rejected (restart), one below it is not; an existing
+    request is kept; an accepted step has e_est <= e_tol. (At exact equality either decision satisfies the property; the clauses leave it open.)
+    With avoid_restarts the rejection may be replaced by ONE forced further iteration when the estimated contraction (max over the levels) is at most one,
+    the iterations still needed stay within twice the budget and within the collocation order of the finest level."""
 
     name = 'AdaptivityBase.determine_restart'
     target = (CCD + 'adaptivity.py', 'AdaptivityBase.determine_restart')
     label = 'proved'
 
+    def instances(self, tier):
+        return [dict(avoid=False), dict(avoid=True)]
+
     def build(self, inst, mk):
-        c, A = adaptivity_ctrl(mk)
+        c, A = adaptivity_ctrl(mk, extra=dict(avoid_restarts=True) if inst['avoid'] else None)
         S = c.MS[0]
         L = S.levels[0]
         S.status.iter = mk.int('iter')
@@ -421,7 +427,20 @@ class AdaptivityRestart(_Base):
         A.params.e_tol = mk.real('e_tol')
         L.status.error_embedded_estimate = mk.real('e_est')
         S.status.restart = mk.bool('restart_old')
-        st = State(c=c, A=A, S=S, L=L, old_restart=S.status.restart)
+        st = State(c=c, A=A, S=S, L=L, old_restart=S.status.restart, inst=inst)
+        if inst['avoid']:
+            S.status.force_continue = mk.bool('force_continue_old')
+            st.old_force = S.status.force_continue
+            st.more, st.rho = [], []
+            for l, Lv in enumerate(S.levels):
+                Lv.status.iter_to_convergence = mk.int(f'more_iterations[{l}]')
+                Lv.status.contraction_factor = mk.real(f'contraction[{l}]')
+                st.more.append(Lv.status.iter_to_convergence)
+                st.rho.append(Lv.status.contraction_factor)
+            L.sweep.coll.order = mk.int('collocation_order')
+            st.order = L.sweep.coll.order
+            for l, Lv in enumerate(S.levels[1:], start=1):
+                Lv.sweep.coll.order = mk.int(f'coarse{l}.collocation_order')
         st.call = lambda: A.determine_restart(c, S)
         return st
 
@@ -433,13 +452,31 @@ class AdaptivityRestart(_Base):
         yield 'returns_normally', exc is None
         if exc is not None:
             return
-        rejected = And(S.status.iter >= S.params.maxiter, L.status.error_embedded_estimate >= A.params.e_tol)
-        yield 'restart_iff_error_above_tolerance_at_maxiter', Iff(S.status.restart, Or(st.old_restart, rejected))
-        yield 'accepted_step_has_error_below_tolerance', Implies(And(S.status.iter >= S.params.maxiter, Not(S.status.restart)), L.status.error_embedded_estimate < A.params.e_tol)
-        yield from frame_clauses(old, snapshot({'S': S}), frame=['S.status.restart'])
+        at_limit = S.status.iter >= S.params.maxiter
+        e, tol = L.status.error_embedded_estimate, A.params.e_tol
+        if not st.inst['avoid']:
+            yield 'estimate_above_tolerance_at_the_iteration_limit_restarts', Implies(And(at_limit, e > tol), S.status.restart)
+            yield 'restart_only_if_requested_before_or_estimate_reaches_tolerance_at_the_limit', Implies(S.status.restart, Or(st.old_restart, And(at_limit, e >= tol)))
+            yield 'existing_request_kept', Implies(st.old_restart, S.status.restart)
+            yield 'accepted_step_has_error_at_most_the_tolerance', Implies(And(at_limit, Not(S.status.restart)), e <= tol)
+            yield from frame_clauses(old, snapshot({'S': S}), frame=['S.status.restart'])
+            return
+        more, rho = smax(list(st.more)), smax(list(st.rho))
+        k_final = S.status.iter + more
+        # strictly on the wrong side of one of the three limits: restart; strictly inside all of them: one forced further iteration instead
+        must_restart = Or(rho > 1, k_final > 2 * S.params.maxiter, k_final > st.order)
+        may_continue = And(rho <= 1, k_final <= 2 * S.params.maxiter, k_final <= st.order)
+        strictly_inside = And(rho < 1, k_final < 2 * S.params.maxiter, k_final < st.order)  # exactly on a limit either decision is fine
+        yield 'avoid:rejected_and_outside_the_limits_restarts', Implies(And(at_limit, e > tol, must_restart), S.status.restart)
+        yield 'avoid:rejected_and_inside_the_limits_continues_instead', Implies(And(at_limit, e > tol, strictly_inside, Not(st.old_restart)), And(S.status.force_continue, Not(S.status.restart)))
+        yield 'avoid:restart_only_if_requested_before_or_estimate_reaches_tolerance_at_the_limit', Implies(S.status.restart, Or(st.old_restart, And(at_limit, e >= tol)))
+        yield 'avoid:forced_continuation_only_for_a_rejected_step_inside_the_limits', Implies(And(S.status.force_continue, Not(st.old_force)), And(at_limit, e >= tol, may_continue))
+        yield 'avoid:existing_request_kept', Implies(st.old_restart, S.status.restart)
+        yield 'avoid:accepted_step_has_error_at_most_the_tolerance', Implies(And(at_limit, Not(S.status.restart), Not(S.status.force_continue)), e <= tol)
+        yield from frame_clauses(old, snapshot({'S': S}), frame=['S.status.restart', 'S.status.force_continue'])
 
     def canary(self, st, old, result, exc):
-        yield 'canary:strict_inequality', Iff(st.S.status.restart, Or(st.old_restart, And(st.S.status.iter >= st.S.params.maxiter, st.L.status.error_embedded_estimate > st.A.params.e_tol)))
+        yield 'canary:never_restarts', Iff(st.S.status.restart, st.old_restart)
 
 
 # ------------------------------------------------------------------------------------------- limiters
